@@ -19,13 +19,14 @@ def units(x, kmax):
     return int(r) if abs(v - r) <= 1e-6 * max(1.0, abs(v)) else 10 ** 9
 
 
-def one_run(ctx, lc, tid, seq, req, nflat, flatcrit_milli, conv_j, seed, budget):
+def one_run(ctx, lc, tid, seq, req, nflat, flatcrit_milli, conv_j, seed, budget, reuse_dir=False, keep_dir=False):
     """Run run_normal_WL with a recording RNG; return the trace (or None on a machinery-level problem)."""
     import numpy as np
     wl = lc.wang_landau
-    outdir = os.path.join(ctx.work, "wl_%d" % tid)
-    shutil.rmtree(outdir, ignore_errors=True)
-    os.makedirs(outdir)
+    outdir = os.path.join(ctx.work, "wl_%d" % (tid if not reuse_dir else tid - 1))
+    if not reuse_dir:
+        shutil.rmtree(outdir, ignore_errors=True)
+    os.makedirs(outdir, exist_ok=True)
     nbins, mn10, mx10 = req
     # the threshold lies strictly between two values of the f schedule (ln f = 2^-k): on a schedule value the code's
     # float comparison f > convergence is a tie that may go either way
@@ -113,7 +114,8 @@ def one_run(ctx, lc, tid, seq, req, nflat, flatcrit_milli, conv_j, seed, budget)
                 ev.append(files)
     if budget_hit:
         ev.append({"ev": "budget"})
-    shutil.rmtree(outdir, ignore_errors=True)
+    if not keep_dir:
+        shutil.rmtree(outdir, ignore_errors=True)
     return {"tid": tid, "ev": ev, "case": case, "finished": not budget_hit}
 
 
@@ -174,7 +176,9 @@ def run(ctx):
         nflat = ctx.rng.choice([50, 100, 200, 400])
         fc = ctx.rng.choice([300, 400, 500, 600, 700, 800])
         cj = ctx.rng.choice([2, 3, 4, 5])
-        tr = one_run(ctx, lc, i + 1, seq, req, nflat, fc, cj, ctx.seed * 100 + i, budget=ctx.pick(25000, 60000))
+        # every fifth run writes into the directory the previous run left behind (its logs must be started afresh)
+        tr = one_run(ctx, lc, i + 1, seq, req, nflat, fc, cj, ctx.seed * 100 + i, budget=ctx.pick(25000, 60000),
+                     reuse_dir=(i % 5 == 1), keep_dir=(i % 5 == 0))
         if tr:
             trs.append(tr)
     cases = {t["tid"]: (t.pop("case"), t.pop("finished")) for t in trs}
